@@ -49,6 +49,50 @@ type c09World struct {
 	tombRd int
 	revIt  int
 	ovAfterDel int
+	held   []*heldSlice
+}
+
+// heldSlice is a slice handed out by Get / Find / an iterator that the caller keeps without copying.
+// The buffer is append-only: until the next Reset such a slice must keep the bytes it had when returned.
+type heldSlice struct {
+	slice, want []byte
+	what        string
+	key         string // key whose value the slice is ("" for key slices)
+	isValue     bool
+	rewritten   bool
+	notLonger   bool
+}
+
+func (w *c09World) hold(b []byte, what, key string, isValue bool) {
+	if len(b) == 0 {
+		return
+	}
+	if len(w.held) >= 8 {
+		w.held = w.held[1:]
+	}
+	w.held = append(w.held, &heldSlice{slice: b, want: clone(b), what: what, key: key, isValue: isValue})
+}
+
+func (w *c09World) noteRewrite(key string, n int) {
+	for _, h := range w.held {
+		if h.isValue && h.key == key && !h.rewritten {
+			h.rewritten, h.notLonger = true, n > 0 && n <= len(h.slice)
+		}
+	}
+}
+
+func (w *c09World) heldIntact(when string) bool {
+	for _, h := range w.held {
+		if !bytes.Equal(h.slice, h.want) {
+			w.run.Fail("C09", "returned-slice-changed", "%s: the slice returned by %s held %s and now holds %s (key rewritten since: %v, value not longer: %v)", when, h.what, short(h.want), short(h.slice), h.rewritten, h.notLonger)
+			return false
+		}
+		if h.rewritten && h.notLonger {
+			w.run.Probe("held_slice_checked_after_rewrite_not_longer")
+			h.notLonger = false // count once
+		}
+	}
+	return true
 }
 
 func (w *c09World) sorted() []string { return sortedKeys(w.model) }
@@ -225,8 +269,8 @@ func c09Generate(rng *kernel.RNG, idx int, tier string) *kernel.Plan {
 	for i := 0; i < nk; i++ {
 		cfg[fmt.Sprintf("k%d", i)] = int64(perm[i])
 	}
-	ops := []string{"put", "del", "get", "find", "each", "scan", "iopen", "imove", "iseek", "irel", "reset", "new", "len"}
-	w := []int{30, 12, 20, 8, 3, 10, 5, 30, 6, 2, 1, 0, 1}
+	ops := []string{"put", "del", "get", "find", "each", "scan", "iopen", "imove", "iseek", "irel", "reset", "new", "len", "hold"}
+	w := []int{30, 12, 20, 8, 3, 10, 5, 30, 6, 2, 1, 0, 1, 6}
 	// switch some kinds off / up per run
 	for i := range w {
 		switch rng.Intn(6) {
@@ -254,6 +298,8 @@ func c09Generate(rng *kernel.RNG, idx int, tier string) *kernel.Plan {
 			steps = append(steps, kernel.Step{Op: "put", A: []int64{k, int64(rng.Intn(nValKinds)), int64(rng.Intn(50))}})
 		case "del", "get", "find":
 			steps = append(steps, kernel.Step{Op: op, A: []int64{k}})
+		case "hold":
+			steps = append(steps, kernel.Step{Op: op, A: []int64{k, int64(rng.Intn(3))}})
 		case "each", "reset", "len":
 			steps = append(steps, kernel.Step{Op: op})
 		case "new":
@@ -322,7 +368,11 @@ func c09Steps(w *c09World) {
 			scribble(k)
 			scribble(v)
 			w.model[mk] = mv
+			w.noteRewrite(mk, len(mv))
 			run.Logf("put %s=%s", short([]byte(mk)), short(mv))
+			if !w.heldIntact("after put") {
+				return
+			}
 		case "del":
 			k := pick(w.keys, st.Arg(0))
 			mk := string(k)
@@ -332,7 +382,11 @@ func c09Steps(w *c09World) {
 			w.db.Delete(k)
 			scribble(k)
 			w.model[mk] = nil
+			w.noteRewrite(mk, 0)
 			run.Logf("del %s", short([]byte(mk)))
+			if !w.heldIntact("after delete") {
+				return
+			}
 		case "get":
 			k := pick(w.keys, st.Arg(0))
 			v, unknown := w.db.Get(k)
@@ -383,7 +437,32 @@ func c09Steps(w *c09World) {
 			run.State(kvDigest(got))
 		case "len":
 			run.Logf("len=%d model=%d", w.db.Len(), len(w.model))
+		case "hold": // zero-copy read: keep the returned slices
+			k := pick(w.keys, st.Arg(0))
+			switch umod(st.Arg(1), 3) {
+			case 0:
+				v, _ := w.db.Get(k)
+				if !bytes.Equal(v, w.model[string(k)]) {
+					run.Fail("C09", "get-value", "Get(%s)=%s, model %s", short(k), short(v), short(w.model[string(k)]))
+					return
+				}
+				w.hold(v, "Get", string(k), true)
+			case 1:
+				if rk, rv, err := w.db.Find(k); err == nil {
+					w.hold(rk, "Find (key)", "", false)
+					w.hold(rv, "Find (value)", string(rk), true)
+				}
+			default:
+				it := w.db.NewIterator(nil)
+				if it.Seek(k) {
+					w.hold(it.Key(), "iterator Key()", "", false)
+					w.hold(it.Value(), "iterator Value()", string(it.Key()), true)
+				}
+				it.Release()
+			}
+			run.Logf("hold %s via %d (%d held)", short(k), umod(st.Arg(1), 3), len(w.held))
 		case "reset":
+			w.held = nil // Reset re-uses the buffer
 			w.closeIters()
 			w.db.Reset()
 			w.model = map[string][]byte{}
@@ -398,6 +477,7 @@ func c09Steps(w *c09World) {
 			}
 			run.Logf("reset")
 		case "new":
+			w.held = nil
 			w.closeIters()
 			w.db = newMemDB(st.Arg(0), st.Arg(1))
 			w.model = map[string][]byte{}
@@ -539,6 +619,9 @@ func c09Steps(w *c09World) {
 			run.State(kvDigest(got))
 		}
 	}
+	if !w.heldIntact("at the end") {
+		return
+	}
 	// final full comparison: every key of the run's alphabet plus the listing
 	for _, k := range w.keys {
 		v, unknown := w.db.Get(k)
@@ -561,13 +644,13 @@ func init() {
 		ID: "C09", Level: "exploration", Engine: engineName,
 		Rule: "case = sequence of 140-260 (thorough: up to 700) operations put/delete/get/find/forEach/len/reset/new, full range scans (forward by First+Next and by bare Next, backward by Last+Prev; nil, bounded, empty-key and inverted ranges) " +
 			"and step-wise iterator movements first/last/seek/next/prev/release on up to 4 concurrently open range iterators interleaved with writes, over a per-run subset (3-12 or all 28) of a key alphabet built to collide and nest " +
-			"(\"\", NUL suffixes, prefixes of each other, 0xff runs, 40- and 300-byte shared prefixes) with values nil/empty/1 byte/long; buffers handed to Put/Delete are overwritten afterwards. Every result is compared with an ordered map with tombstones; " +
+			"(\"\", NUL suffixes, prefixes of each other, 0xff runs, 40- and 300-byte shared prefixes) with values nil/empty/1 byte/long; buffers handed to Put/Delete are overwritten afterwards; slices returned by Get / Find / iterator Key()/Value() are kept without copying ('hold') and must keep their bytes across later writes (until the next reset). Every result is compared with an ordered map with tombstones; " +
 			"a case is non-trivial if it read at least one tombstone, overwrote a deleted key and moved an iterator backwards; distinct by the digest of all returned results",
 		Real:        []string{"core/store/overlaydb MemDB (skip list, dbIter)"},
 		Stub:        []string{},
 		Assumptions: []string{"nil and empty values are not distinguished (a Put of an empty value is a delete, as the code documents)", "iterators are not used across Reset (released before)", "iterator positions follow the goleveldb iterator contract: fresh iterator is before-first, Next from there is First, Prev after forward exhaustion is Last", "no fault dimension beyond reset/new: decided by history-vs-model"},
 		QuickRuns:   20000, ThoroughRuns: 1500000, QuickCap: 40, ThoroughCap: 700,
-		RequiredProbes: []string{"tombstone_read", "overwrite_after_delete", "iter_on_tombstone", "bounded_scan_nonempty", "prev_from_eof", "next_from_bof", "reset", "unknown_read"},
+		RequiredProbes: []string{"tombstone_read", "overwrite_after_delete", "iter_on_tombstone", "bounded_scan_nonempty", "prev_from_eof", "next_from_bof", "reset", "unknown_read", "held_slice_checked_after_rewrite_not_longer"},
 		Generate:       c09Generate,
 		Execute:        c09Execute,
 	})
